@@ -81,6 +81,19 @@ type boundsCtx struct {
 	depth  int
 	ids    map[ssa.Value]string
 	stores map[string][]*ssa.Store
+	fixSeq ssa.Value // case analysis: the sequence whose length is taken to be fixLen
+	fixLen int64
+}
+
+// fixedLen: the length of x under the case being analysed (a case split over the few lengths x can have here).
+func (bc *boundsCtx) fixedLen(x ssa.Value) (int64, bool) {
+	if bc.fixSeq == nil || x == nil {
+		return 0, false
+	}
+	if bc.sameSeq(x, bc.fixSeq) {
+		return bc.fixLen, true
+	}
+	return 0, false
 }
 
 func (bc *boundsCtx) sameSeq(a, b ssa.Value) bool {
@@ -375,6 +388,9 @@ func lenArg(v ssa.Value) ssa.Value {
 
 // lenLB: a lower bound of len(x) valid at block b (0 when nothing is known).
 func (bc *boundsCtx) lenLB(x ssa.Value, b *ssa.BasicBlock) int64 {
+	if k, ok := bc.fixedLen(x); ok {
+		return k
+	}
 	if bc.depth > 8 {
 		return 0
 	}
@@ -562,6 +578,9 @@ func negOp(op token.Token) token.Token {
 // lenUB: an upper bound of len(x) - the length of an array, of a slice of an array with constant bounds, of a
 // make with a constant length (posInf when unknown).
 func (bc *boundsCtx) lenUB(x ssa.Value, b *ssa.BasicBlock) int64 {
+	if k, ok := bc.fixedLen(x); ok {
+		return k
+	}
 	x = strip(x)
 	arrLen := func(t types.Type) int64 {
 		if p, ok := t.Underlying().(*types.Pointer); ok {
@@ -638,6 +657,9 @@ func (bc *boundsCtx) rng(v ssa.Value, b *ssa.BasicBlock) irange {
 		}
 	case *ssa.Call:
 		if la := lenArg(x); la != nil {
+			if k, ok := bc.fixedLen(la); ok {
+				return irange{lo: k, hi: k, lenOf: la}
+			}
 			r.lo = bc.lenLB(la, b)
 			r.lenOf, r.lenMinus = la, 0
 			if ub := bc.lenUB(la, b); ub < r.hi {
@@ -710,8 +732,26 @@ func (bc *boundsCtx) rng(v ssa.Value, b *ssa.BasicBlock) irange {
 					return irange{lo: 0, hi: k - 1}
 				}
 			}
+		case token.MUL:
+			a, bb := bc.rng(x.X, b), bc.rng(x.Y, b)
+			if a.lo >= 0 && bb.lo >= 0 {
+				r.lo = a.lo * bb.lo
+				if a.hi != posInf && bb.hi != posInf && a.hi < 1<<31 && bb.hi < 1<<31 {
+					r.hi = a.hi * bb.hi
+				}
+			}
 		case token.ADD, token.SUB:
 			a := bc.rng(x.X, b)
+			if _, isK := intConst(x.Y); !isK && x.Op == token.SUB {
+				bb := bc.rng(x.Y, b)
+				if a.lo != negInf && bb.hi != posInf {
+					r.lo = a.lo - bb.hi
+				}
+				if a.hi != posInf && bb.lo != negInf {
+					r.hi = a.hi - bb.lo
+				}
+				break
+			}
 			if k, ok := intConst(x.Y); ok {
 				if x.Op == token.SUB {
 					k = -k
@@ -836,8 +876,14 @@ func (bc *boundsCtx) rng(v ssa.Value, b *ssa.BasicBlock) irange {
 			}
 		} else if la := lenArg(other); la != nil && op == token.LSS {
 			r.ltLenOf = la
+			if k, ok := bc.fixedLen(la); ok && k-1 < r.hi {
+				r.hi = k - 1
+			}
 		} else if la := lenArg(other); la != nil && op == token.LEQ {
 			r.leLenOf = la
+			if k, ok := bc.fixedLen(la); ok && k < r.hi {
+				r.hi = k
+			}
 		} else if bc.depth < 6 {
 			// compared with another computed value: its interval and its relation to a length carry over
 			ro := bc.rng(other, b)
@@ -1005,6 +1051,13 @@ func (bc *boundsCtx) sitesOf(just justTable, keyFn string) []panicSite {
 				if site == nil {
 					continue
 				}
+				if !site.OK && (site.Kind == "index" || site.Kind == "slice") && bc.fixSeq == nil {
+					// case analysis over a sequence that can only have a few lengths here (a guard admitted 3 or 4 bytes):
+					// the obligation holds if it holds for each of them
+					if why, ok := bc.splitOnLength(ins, b); ok {
+						site.OK, site.Why = true, why
+					}
+				}
 				if !site.OK {
 					key := keyFn + "|" + site.Kind + " " + site.Expr
 					for _, sh := range justShapes {
@@ -1137,6 +1190,14 @@ func (bc *boundsCtx) checkSlice(x *ssa.Slice, b *ssa.BasicBlock) *panicSite {
 func (bc *boundsCtx) checkAssert(x *ssa.TypeAssert, b *ssa.BasicBlock) *panicSite {
 	w := bc.w
 	s := &panicSite{Fn: bc.fn, Instr: x, Kind: "type assertion", Expr: w.Short(x.X) + ".(" + types.TypeString(x.AssertedType, shortQual2) + ")"}
+	// an assertion to an interface that the operand's static type already implements (the compiler's form of taking a
+	// method value of an embedded interface): it fails only for a nil interface value, as the method call itself would
+	if it, isIface := x.AssertedType.Underlying().(*types.Interface); isIface {
+		if _, srcIface := x.X.Type().Underlying().(*types.Interface); srcIface && types.Implements(x.X.Type(), it) {
+			s.OK, s.Why = true, "the operand's static type implements the asserted interface"
+			return s
+		}
+	}
 	// discharged by a dominating comma-ok assertion of the same value and type whose ok is known true
 	for l := range bc.facts.At(b) {
 		if !l.Pol {
@@ -1432,4 +1493,68 @@ func (w *World) indexSummary(h *ssa.Function) *idxSummary {
 	}
 	w.idxSums[h] = sum
 	return sum
+}
+
+// splitOnLength re-examines the failed obligation at ins once for every length that some sequence measured in fn can
+// have at block b, when the value-set flow of that length (guards comparing it with constants) leaves at most four.
+func (bc *boundsCtx) splitOnLength(ins ssa.Instruction, b *ssa.BasicBlock) (string, bool) {
+	w, fn := bc.w, bc.fn
+	var seqs []ssa.Value
+	for _, call := range callsIn(fn) {
+		cv, ok := call.(*ssa.Call)
+		if !ok {
+			continue
+		}
+		la := lenArg(cv)
+		if la == nil {
+			continue
+		}
+		dup := false
+		for _, s := range seqs {
+			if bc.sameSeq(s, la) {
+				dup = true
+			}
+		}
+		if !dup {
+			seqs = append(seqs, la)
+		}
+	}
+	if len(seqs) > 6 {
+		seqs = seqs[:6]
+	}
+	for _, seq := range seqs {
+		flow := w.newByteFlow(fn, func(v ssa.Value) bool {
+			la := lenArg(strip(v))
+			return la != nil && bc.sameSeq(la, seq)
+		}, func(ssa.Instruction) bool { return false })
+		if flow.tests == 0 || !flow.known[b] {
+			continue
+		}
+		set := flow.in[b]
+		if set.full() || set.count() == 0 || set.count() > 4 || set.has(255) {
+			continue // 255 stands for "255 or more" in a set of byte values: not a bounded length
+		}
+		allOK := true
+		for _, k := range set.list() {
+			bc.fixSeq, bc.fixLen = seq, k
+			var site *panicSite
+			switch x := ins.(type) {
+			case *ssa.IndexAddr:
+				site = bc.checkIndex(x, x.X, x.Index, b)
+			case *ssa.Index:
+				site = bc.checkIndex(x, x.X, x.Index, b)
+			case *ssa.Slice:
+				site = bc.checkSlice(x, b)
+			}
+			bc.fixSeq = nil
+			if site == nil || !site.OK {
+				allOK = false
+				break
+			}
+		}
+		if allOK {
+			return fmt.Sprintf("holds for each length %v that %s can have here", set.list(), w.Short(seq)), true
+		}
+	}
+	return "", false
 }
